@@ -88,3 +88,38 @@ def main(seed: int) -> int:
         if bad:
             rc = 2
     return rc
+
+
+def transparency() -> int:
+    """The repository's suite under package-wide seams must equal the baseline: every test in
+    BASELINE.stable_pass passes, nothing but the known always-fail fails."""
+    import re
+    import tempfile
+
+    base = json.load(open("/root/.vp/BASELINE.json"))
+    rc = 0
+    for seed in ("7", "8"):
+        with tempfile.TemporaryDirectory() as tmp:
+            xml = os.path.join(tmp, "r.xml")
+            env = dict(os.environ, PYTHONPATH=runner.VERIF, VERIF_TRANSPARENCY_SEED=seed)
+            p = subprocess.run([sys.executable, "-m", "pytest", "-q", "-p", "no:cacheprovider", "-p", "sim.pytest_seams_plugin", "-n", "8",
+                                "--timeout=900", "--junitxml=" + xml, "tests"], cwd="/repo", env=env, capture_output=True, text=True, timeout=3000)
+            import xml.etree.ElementTree as ET
+
+            root = ET.parse(xml).getroot()
+            passed, failed = 0, []
+            for tc in root.iter("testcase"):
+                name = tc.get("classname", "") + "::" + tc.get("name", "")
+                if tc.find("failure") is not None or tc.find("error") is not None:
+                    failed.append(name)
+                elif tc.find("skipped") is None:
+                    passed += 1
+            unexpected = [f for f in failed if not f.endswith("SplineInterpolatedCurveTests::test_length")]
+            need = len(base.get("stable_pass", []))
+            print(f"transparency seed {seed}: {passed} passed, {len(failed)} failed (baseline stable_pass {need}); unexpected failures: {unexpected[:5]}")
+            world_line = [ln for ln in p.stdout.splitlines() if ln.startswith("[verif]")]
+            if world_line:
+                print("  " + world_line[-1])
+            if unexpected or passed < need:
+                rc = 2
+    return rc
